@@ -157,3 +157,40 @@ def maxerr(a, b):
     if not np.all(np.isfinite(d)):
         return float("inf")
     return float(d.max()) if d.size else 0.0
+
+
+def dist_points_to_triangles(pts, tris):
+    """Min distance from each point (N,3) to a set of triangles (T,3,3), float numpy.
+    Used only for the 'not within a margin of the boundary' filter."""
+    pts = np.asarray(pts, float)
+    tris = np.asarray(tris, float)
+    best = np.full(len(pts), np.inf)
+
+    def seg(p, a, b):
+        ab = b - a
+        t = np.clip(((p - a) @ ab) / max(float(ab @ ab), 1e-300), 0.0, 1.0)
+        return np.linalg.norm(p - (a + t[:, None] * ab), axis=1)
+
+    for a, b, c in tris:
+        n = np.cross(b - a, c - a)
+        nn = np.linalg.norm(n)
+        d = np.minimum(np.minimum(seg(pts, a, b), seg(pts, b, c)), seg(pts, c, a))
+        if nn > 0:
+            n = n / nn
+            h = (pts - a) @ n
+            q = pts - h[:, None] * n
+            ins = np.ones(len(pts), bool)
+            for x, y in ((a, b), (b, c), (c, a)):
+                ins &= np.cross(y - x, q - x) @ n >= 0
+            d = np.where(ins, np.abs(h), d)
+        best = np.minimum(best, d)
+    return best
+
+
+def fan_triangles(V, faces):
+    V = np.asarray(V, float)
+    out = []
+    for f in faces:
+        for i in range(1, len(f) - 1):
+            out.append((V[f[0]], V[f[i]], V[f[i + 1]]))
+    return out
